@@ -31,16 +31,18 @@ class Hist:
         self.db = 'sqlite:///' + os.path.join(os.environ['BCL_DATA_DIR'], 'c09_%s_%s_%s_%s_%s.sqlite' % (self.wt.replace('-', '_'), self.net, self.how, self.ctx.seed, self.hseed))
         ent = bytes(rng.randrange(256) for _ in range(rng.choice([16, 32])))
         self.password = ''
+        self.defacct = rng.choice([0, 0, 0, 1, 5])
+        acckw = {'account_id': self.defacct} if self.defacct else {}
         if self.how == 'mnemonic':
             self.words = Mnemonic().to_mnemonic(ent)
             self.password = rng.choice(['', 'pass phrase'])
             self.seed = Mnemonic().to_seed(self.words, self.password)
-            self.w = Wallet.create('w', keys=self.words, password=self.password, witness_type=self.wt, network=self.net, db_uri=self.db)
+            self.w = Wallet.create('w', keys=self.words, password=self.password, witness_type=self.wt, network=self.net, db_uri=self.db, **acckw)
         else:
             self.seed = ent if len(ent) == 32 else ent * 2
             self.master = HDKey.from_seed(self.seed, witness_type=self.wt, network=self.net)
             keys = self.master if self.how == 'hdkey' else self.master.wif_private()
-            self.w = Wallet.create('w', keys=keys, witness_type=self.wt, network=self.net, db_uri=self.db)
+            self.w = Wallet.create('w', keys=keys, witness_type=self.wt, network=self.net, db_uri=self.db, **acckw)
 
     def chain(self, wt, net, acct, change):
         return '%s.%d.%d.%d.0' % (wt, NETS[net], acct, change)
@@ -97,7 +99,7 @@ class Hist:
         self.create()
         w = self.w
         # a new wallet owns key 0 of the receiving chain of account 0
-        self.ops.append('at.%s.0' % self.chain(self.wt, self.net, 0, 0))
+        self.ops.append('at.%s.0' % self.chain(self.wt, self.net, self.defacct, 0))
         self.descr.append('Wallet.create')
         self.real.append([])
         first = [k for k in w.keys(depth=5)]
@@ -110,9 +112,36 @@ class Hist:
         other_wt = [x for x in ADDR_KIND if x != self.wt]
         other_net = [n for n in NETS if n != self.net and NETS[n] != NETS[self.net]]
         nets_used = [self.net]
-        accounts = [0]
+        accounts = [self.defacct]
+        if self.defacct != 0:
+            # the wallet's default account is not 0: account 0 named explicitly must be account 0
+            purpose = {'legacy': 44, 'p2sh-segwit': 49, 'segwit': 84}[self.wt]
+            try:
+                a = w.new_account(account_id=0)
+                want = "m/%d'/%d'/0'" % (purpose, NETS[self.net])
+                if a.path != want or a.account_id != 0:
+                    self.problems.append(('account', self.rep(real_op='new_account(account_id=0) on a wallet with default account %d' % self.defacct,
+                                                              observed=(a.path, a.account_id), expected=want)))
+                accounts.append(0)
+                for chg_ in (0, 1):
+                    self.ops.append('at.%s.0' % self.chain(self.wt, self.net, 0, chg_))
+                    self.descr.append('new_account(account_id=0) -> key %d/0' % chg_)
+                    self.real.append([])
+                ms = run_driver(['keypaths 0 ' + ';'.join(self.ops)])[0].split(' | ')[0].split(';')[-2:]
+                for m_ in ms:
+                    for x in ([] if m_ in ('-', 'none') else m_.split(',')):
+                        xs = x.split(':')
+                        self.modelid[xs[2]] = int(xs[0])
+                for acct_ in (0, 0, self.defacct):
+                    kw_ = {'account_id': 0} if acct_ == 0 else {}
+                    k = w.new_key(**kw_)
+                    self.record('new.%s.1' % self.chain(self.wt, self.net, acct_, 0), [k], 'new_key(%s)' % kw_)
+                k = w.get_key(account_id=0, change=1)
+                self.record('get.%s.1' % self.chain(self.wt, self.net, 0, 1), [k], 'get_key(account_id=0, change=1)')
+            except WalletError as e:
+                self.problems.append(('refused', self.rep(real_op='prelude default account', error=str(e)[:100])))
         # structured prelude (every second history): explicit keys requested out of index order, then keys issued by the wallet
-        if self.hseed % 2 == 1:
+        elif self.hseed % 2 == 1:
             hi, lo = rng.choice([(6, 3), (9, 2), (4, 1)])
             chg = rng.choice([0, 1])
             c = self.chain(self.wt, self.net, 0, chg)
@@ -175,8 +204,8 @@ class Hist:
             net = self.net
             change = rng.choice([0, 0, 1])
             kw = {}
-            if acct != 0:
-                kw['account_id'] = acct
+            if acct != self.defacct:
+                kw['account_id'] = acct          # also account 0, named explicitly, when it is not the default
             if wt != self.wt:
                 kw['witness_type'] = wt
             c = self.chain(wt, net, acct, change)
@@ -215,7 +244,7 @@ class Hist:
                     a = w.new_account()
                     accounts.append(a.account_id)
                     want = "m/%d'/%d'/%d'" % ({'legacy': 44, 'p2sh-segwit': 49, 'segwit': 84}[self.wt], NETS[self.net], a.account_id)
-                    if a.path != want or a.account_id != len(accounts) - 1:
+                    if a.path != want or a.account_id != max(accounts[:-1]) + 1:
                         self.problems.append(('account', self.rep(real_op='new_account()', observed=(a.path, a.account_id), expected=want)))
                     # new_account creates key 0 of both chains
                     for chg in (0, 1):
@@ -270,17 +299,18 @@ class Hist:
             if key not in explicit and sorted(idxs) != list(range(len(idxs))):
                 self.problems.append(('gap', self.rep(chain=(wt, net, acct, chg), observed=sorted(idxs))))
         # ---- re-creation ---------------------------------------------------------------------------------------------------
-        mine0 = sorted((k.address_index, k.address) for k in leaves if k.witness_type == self.wt and k.account_id == 0 and k.change == 0 and k.network_name == self.net)
-        mine1 = sorted((k.address_index, k.address) for k in leaves if k.witness_type == self.wt and k.account_id == 0 and k.change == 1 and k.network_name == self.net)
+        mine0 = sorted((k.address_index, k.address) for k in leaves if k.witness_type == self.wt and k.account_id == self.defacct and k.change == 0 and k.network_name == self.net)
+        mine1 = sorted((k.address_index, k.address) for k in leaves if k.witness_type == self.wt and k.account_id == self.defacct and k.change == 1 and k.network_name == self.net)
         variants = []
         from bitcoinlib.keys import HDKey
         if self.how == 'mnemonic':
             variants.append(('mnemonic', dict(keys=self.words, password=self.password)))
         variants.append(('seed', dict(keys=HDKey.from_seed(self.seed, witness_type=self.wt, network=self.net))))
         variants.append(('xprv', dict(keys=w.main_key.wif)))
-        variants.append(('account-xpub', dict(keys=w.public_master(account_id=0).wif)))
+        variants.append(('account-xpub', dict(keys=w.public_master(account_id=self.defacct).wif)))
         for name, kw in variants:
-            w2 = Wallet.create('re_' + name.replace('-', '_'), witness_type=self.wt, network=self.net, db_uri=self.db, **kw)
+            acckw = {'account_id': self.defacct} if self.defacct else {}
+            w2 = Wallet.create('re_' + name.replace('-', '_'), witness_type=self.wt, network=self.net, db_uri=self.db, **kw, **acckw)
             ctx.evals += 1
             ctx.count('recreate:' + name)
             for chg, mine in ((0, mine0), (1, mine1)):
